@@ -7,6 +7,7 @@
   `runOps ops` is the registry after the history `ops` of registration requests, starting from the initial state.
 -/
 import MptModel.Lemmas.Registry
+import MptModel.Lemmas.RegistryLookup
 namespace Mpt.C06
 open Mpt Mpt.Generated Mpt.Registry Mpt.RegSpec
 
@@ -86,6 +87,125 @@ theorem unique_stable (a b : List Op) (e : Named) (n : Name) (he : e ∈ allName
 
 example : namedTraits (runOps [.mtype (some [97, 98, 99, 100])]) [97, 98, 99, 100, 58, 120] 4 =
     some { name := some [97, 98, 99, 100], id := 257, traits := .known { size := 8, init := false, fini := false } } := by decide
+
+/-- An id that was handed out resolves, from then on, to exactly what was registered: `mpt_type_traits` gives the
+    requested description (`Op.desc`: the basic size — a pointer for size 0 —, the generic traits record, a pointer for
+    interfaces and metatypes); `mpt_interface_traits` / `mpt_metatype_traits` give the entry with the requested name and
+    this id; and a name that was given is found by whole-string lookup and by length-limited lookup in any text that
+    starts with it.  `b` is any later history. -/
+theorem issued_resolves (a b : List Op) (op : Op) (id : Nat) (h : (op.run (runOps a)).2 = some id) :
+    traits (runOps (a ++ op :: b)) id = some (.known op.desc) ∧
+    (∀ n, op = .iface n →
+      interfaceTraits (runOps (a ++ op :: b)) id = some { name := n, id := id, traits := .known ptrDesc }) ∧
+    (∀ n, op = .mtype n →
+      metatypeTraits (runOps (a ++ op :: b)) id = some { name := n, id := id, traits := .known ptrDesc }) ∧
+    (∀ n, op.name = some n →
+      namedTraits (runOps (a ++ op :: b)) n (-1) = some { name := some n, id := id, traits := .known ptrDesc } ∧
+      ∀ suffix, namedTraits (runOps (a ++ op :: b)) (n ++ suffix) n.length =
+        some { name := some n, id := id, traits := .known ptrDesc }) := by
+  have hrun : runOps (a ++ op :: b) = b.foldl step (step (runOps a) op) := by simp [runOps, List.foldl_append]
+  have hext : Ext (step (runOps a) op) (runOps (a ++ op :: b)) := by rw [hrun]; exact foldl_ext b _
+  have hinv := inv_runOps (a ++ op :: b)
+  obtain ⟨ht, hi, hm⟩ := issued_step (runOps a) (inv_runOps a) op id h
+  refine ⟨traits_ext hext ht, fun n hn => interfaceTraits_ext hext (hi n hn).1,
+    fun n hn => metatypeTraits_ext hext (hm n hn).1, ?_⟩
+  intro n hn
+  have hmem : ({ name := some n, id := id, traits := .known ptrDesc } : Named) ∈ allNamed (runOps (a ++ op :: b)) := by
+    rw [mem_allNamed]
+    cases op with
+    | basic size => simp [Op.name] at hn
+    | generic d => simp [Op.name] at hn
+    | iface nm => simp only [Op.name] at hn; subst hn; exact Or.inr (hext.ifaces.subset (hi _ rfl).2)
+    | mtype nm => simp only [Op.name] at hn; subst hn; exact Or.inl (hext.metas.subset (hm _ rfl).2)
+  exact ⟨(name_roundtrip hinv hmem rfl).1, fun suffix => named_prefix hinv hmem rfl suffix⟩
+
+example : (Op.run (runOps [.basic 0]) (.generic { size := 7, init := true, fini := false })).2 = some 2304 ∧
+    (Op.run (runOps []) (.mtype (some [97, 98, 99, 100]))).2 = some 257 := by decide
+
+/-- Lookup by name is sound and complete in every reachable state.  Whole string (`len < 0`): the result is an entry
+    whose name is the text after short-name expansion.  Length-limited: the result is an entry whose name is *exactly*
+    the first `len` characters of the text — so a registered name is found in every text it starts (with its own
+    length), never with a shorter or longer limit, and a name that is a proper prefix of another registered name does
+    not shadow it.  If no entry carries the key, nothing is found. -/
+theorem lookup_by_name (ops : List Op) :
+    (∀ e ∈ allNamed (runOps ops), ∀ n, e.name = some n →
+      namedTraits (runOps ops) n (-1) = some e ∧ ∀ suffix, namedTraits (runOps ops) (n ++ suffix) n.length = some e) ∧
+    (∀ text e, namedTraits (runOps ops) text (-1) = some e →
+      e ∈ allNamed (runOps ops) ∧ e.name = some (resolveShort text)) ∧
+    (∀ text (len : Nat) e, namedTraits (runOps ops) text len = some e →
+      len ≠ 0 ∧ len ≤ text.length ∧ e ∈ allNamed (runOps ops) ∧ e.name = some (text.take len)) ∧
+    (∀ text (len : Nat) e n, namedTraits (runOps ops) text len = some e → e.name = some n → n.length = len) ∧
+    (∀ text, (∀ e ∈ allNamed (runOps ops), e.name ≠ some (resolveShort text)) → namedTraits (runOps ops) text (-1) = none) ∧
+    (∀ text (len : Nat), (∀ e ∈ allNamed (runOps ops), e.name ≠ some (text.take len)) →
+      namedTraits (runOps ops) text len = none) := by
+  have hinv := inv_runOps ops
+  exact ⟨fun e he n hn => ⟨(name_roundtrip hinv he hn).1, named_prefix hinv he hn⟩,
+    fun _ _ h => named_whole_sound h, fun _ _ _ h => named_len_sound h,
+    fun _ _ _ _ h hn => (named_len_exact h hn).1, fun _ => named_none.1, fun _ => named_none.2⟩
+
+/-- "abcd" and "abcde" registered: the text "abcde" with limit 4 finds "abcd", with limit 5 "abcde", with limit 3
+    nothing -/
+example :
+    let r := runOps [.mtype (some [97, 98, 99, 100, 101]), .mtype (some [97, 98, 99, 100])]
+    (namedTraits r [97, 98, 99, 100, 101] 4).map (·.id) = some 258 ∧
+    (namedTraits r [97, 98, 99, 100, 101] 5).map (·.id) = some 257 ∧
+    namedTraits r [97, 98, 99, 100, 101] 3 = none := by decide
+
+/-- `mpt_alias_typeid(desc, &end)` in every reachable state.  (1) A registered name without `:` resolves to its id,
+    `end` at the end of the text.  (2) `name ws* : ws* symbol` (the name has no `:` and does not end in white space)
+    resolves to the id of that name, `end` at the symbol.  (3) Whatever is accepted is the id of the entry named by the
+    name part: the whole text after short-name expansion, or the text in front of the first `:` without its trailing
+    white space (never empty). -/
+theorem alias_lookup (ops : List Op) :
+    (∀ e ∈ allNamed (runOps ops), ∀ n, e.name = some n → 58 ∉ n → aliasTypeid (runOps ops) n = .ok (e.id, n.length)) ∧
+    (∀ e ∈ allNamed (runOps ops), ∀ n, e.name = some n → 58 ∉ n → (∀ c, n.getLast? = some c → isSpaceC c = false) →
+      ∀ ws ws2 sym : Name, (∀ c ∈ ws, isSpaceC c = true) → (∀ c ∈ ws2, isSpaceC c = true) →
+        (∀ c, sym.head? = some c → isSpaceC c = false) →
+        aliasTypeid (runOps ops) (n ++ ws ++ 58 :: (ws2 ++ sym)) = .ok (e.id, n.length + ws.length + 1 + ws2.length)) ∧
+    (∀ desc id off, aliasTypeid (runOps ops) desc = .ok (id, off) →
+      ∃ e ∈ allNamed (runOps ops), e.id = id ∧
+        ((58 ∉ desc ∧ e.name = some (resolveShort desc)) ∨
+         (∃ k, desc.findIdx? (· = 58) = some k ∧ aliasKey desc k ≠ [] ∧
+            e.name = some (desc.take (aliasKey desc k).length)))) := by
+  have hinv := inv_runOps ops
+  refine ⟨?_, ?_, fun _ _ _ h => alias_sound h⟩
+  · intro e he n hn hc
+    rw [alias_plain _ _ hc, (name_roundtrip hinv he hn).1]
+  · intro e he n hn hc hl ws ws2 sym h1 h2 h3
+    exact alias_described hinv he hn ws ws2 sym hc hl h1 h2 h3
+
+/-- "my.type" registered: `my.type : lib.so` gives its id and the offset of `lib.so`; `my.typ:x` and `:x` are refused -/
+example :
+    let r := runOps [.mtype (some [109, 121, 46, 116, 121, 112, 101])]
+    aliasTypeid r [109, 121, 46, 116, 121, 112, 101, 32, 58, 32, 108, 105, 98] = .ok (257, 10) ∧
+    aliasTypeid r [109, 121, 46, 116, 121, 112, 58, 120] = .err .BadValue ∧
+    aliasTypeid r [58, 120] = .err .BadValue ∧
+    aliasTypeid r [108, 111, 103] = .ok (129, 3) := by decide
+
+/-- `mpt_type_int` / `mpt_type_uint`: the integer type code of a byte size (b n i x / y q u t), 0 for every other
+    size -/
+theorem type_int_sizes :
+    (∀ k ∈ List.range 64, typeInt k = (match k with | 1 => 98 | 2 => 110 | 4 => 105 | 8 => 120 | _ => 0)) ∧
+    (∀ k ∈ List.range 64, typeUint k = (match k with | 1 => 121 | 2 => 113 | 4 => 117 | 8 => 116 | _ => 0)) ∧
+    (∀ k, 8 < k → typeInt k = 0 ∧ typeUint k = 0) := by
+  refine ⟨by decide, by decide, ?_⟩
+  intro k hk
+  have h : ∀ x ∈ TypeTab.typeInt ++ TypeTab.typeUint, x.1 ≤ 8 := by decide
+  constructor
+  · unfold typeInt
+    cases hf : TypeTab.typeInt.find? (·.1 = k) with
+    | none => rfl
+    | some x =>
+      have := h x (List.mem_append_left _ (List.mem_of_find?_eq_some hf))
+      have hk' : x.1 = k := by simpa using List.find?_some hf
+      omega
+  · unfold typeUint
+    cases hf : TypeTab.typeUint.find? (·.1 = k) with
+    | none => rfl
+    | some x =>
+      have := h x (List.mem_append_right _ (List.mem_of_find?_eq_some hf))
+      have hk' : x.1 = k := by simpa using List.find?_some hf
+      omega
 
 /-- Refusals leave the registry unchanged: too short a name; a name that is already registered (in either table,
     built-ins included); an exhausted range. -/
